@@ -36,7 +36,7 @@ class Runner:
         self.check = check
         self.cold = cold
         self.repo = repo or os.environ.get("ALDYSIM_REPO")
-        self.pool = None if cold else ZygotePool(max_procs=workers, repo=self.repo)
+        self.pool = None if cold else ZygotePool(max_procs=workers + 14, repo=self.repo)
         import tempfile
 
         self.root = tempfile.mkdtemp(prefix="r", dir=scratch_root())
@@ -305,23 +305,25 @@ def run_check(check, tier, seed, budget_s=None, workers=None, nplans=None, selft
         "wall_s": round(wall, 2),
         "violations": len(violations),
     }
-    os.makedirs(os.path.join(VERIF, "evidence"), exist_ok=True)
-    with open(os.path.join(VERIF, "evidence", f"{check.ID}.json"), "w") as f:
-        json.dump(doc, f, indent=1, default=str)
+    if not os.environ.get("ALDYSIM_NO_EVIDENCE"):
+        os.makedirs(os.path.join(VERIF, "evidence"), exist_ok=True)
+        with open(os.path.join(VERIF, "evidence", f"{check.ID}.json"), "w") as f:
+            json.dump(doc, f, indent=1, default=str)
     print(f"{check.ID} tier={tier} seed={seed} plans={acc.get('plans', 0)} evaluations={evaluations} "
           f"violations={len(violations)} known={sum(h['n'] for h in known_hits.values())} "
           f"harness={len(harness)} wall={wall:.1f}s")
+    for h in harness[:5]:
+        print(f"HARNESS-{h['kind'].upper()}: plan={h['plan']} {h['detail'][-800:]}")
     if violations:
         return 1
     if harness:
-        for h in harness[:5]:
-            print(f"HARNESS-{h['kind'].upper()}: plan={h['plan']} {h['detail'][-800:]}")
         return 2
     return 0
 
 
 def write_replay(check, seed, tier, plan, outcome, viol, shrink_runs, plan_index):
-    os.makedirs(os.path.join(VERIF, "replays"), exist_ok=True)
+    rdir = os.environ.get("ALDYSIM_REPLAY_DIR") or os.path.join(VERIF, "replays")
+    os.makedirs(rdir, exist_ok=True)
     doc = {
         "property": check.ID,
         "seed": seed,
@@ -334,7 +336,7 @@ def write_replay(check, seed, tier, plan, outcome, viol, shrink_runs, plan_index
         "repo": repo_state(),
     }
     h = canon.digest([plan, viol["clause"]])[:10]
-    path = os.path.join(VERIF, "replays", f"{check.ID}-{seed}-{h}.json")
+    path = os.path.join(rdir, f"{check.ID}-{seed}-{h}.json")
     with open(path, "w") as f:
         json.dump(doc, f, indent=1, default=str)
     return path
